@@ -1544,10 +1544,10 @@ output_3byte_vex_opcode (OrcCompiler *p, const OrcX86Insn *xinsn)
       break;
     case ORC_VEX_SIMD_PREFIX_66:
     case ORC_SIMD_PREFIX_MMX:
-    case ORC_SIMD_PREFIX_ESCAPE_ONLY:
       byte3 |= 0x1; 
       break;
     case ORC_VEX_SIMD_PREFIX_NONE:
+    case ORC_SIMD_PREFIX_ESCAPE_ONLY:
       break;
     default:
       ORC_COMPILER_ERROR(p, "unhandled VEX.pp for instruction type %x", xinsn->opcode->prefix);
